@@ -497,7 +497,8 @@ def check(run: Run) -> None:
                 ok = ok and re.fullmatch(r"[a-z0-9_]*", consts) is not None and all(v.format_spec is not None and "x" in ast.unparse(v.format_spec) for v in fmts)
             else:
                 ok = False
-    ok = ok and n_pieces >= 1  # (no piece examined = nothing decided)
+    if n_pieces == 0:
+        raise AnalysisError("_sanitize_rule_name: no piece appended to the list that is joined into the name was found (the sanitiser is not in a form this rule reads); its output alphabet is not decided")
     lowered = any(isinstance(n, ast.Call) and isinstance(n.func, ast.Attribute) and n.func.attr == "lower" for n in walk_no_nested(sz.node))
     nonempty = any(isinstance(n, ast.Return) and isinstance(n.value, ast.BoolOp) and isinstance(n.value.op, ast.Or) and isinstance(n.value.values[-1], ast.Constant) and n.value.values[-1].value for n in walk_no_nested(sz.node))
     digit_guard = any(isinstance(n, ast.If) and "isdigit()" in ast.unparse(n.test) for n in walk_no_nested(sz.node))
